@@ -101,6 +101,7 @@ type Obligation struct {
 	MustFail bool
 	Cover    bool // cover query: expected sat
 	Skolems  []string
+	fullOnly bool
 	NCands   int
 	Block    *ssa.BasicBlock
 	fc       *FnCtx
@@ -148,6 +149,7 @@ type FnCtx struct {
 	candBlock     map[string]*ssa.BasicBlock
 	curBlock      *ssa.BasicBlock // block being executed in the top-level frame
 	appendLens    []string
+	hasMixedQuant bool // some quantified variable is used both as a position and as a map key
 	storeRef      map[string]string // heap version defined as (store parent ref v) -> ref
 	mergeConst    map[string]bool   // heap versions defined as a merge (ite) of their parents
 	declStamp     map[int]int
@@ -744,16 +746,143 @@ func (fc *FnCtx) closedGround(t, name, v, key string) {
 		return
 	}
 	fc.closedNoted[k] = true
-	// only objects that existed when this heap version was created are covered: a later-allocated row read from
-	// an unchanged heap version holds whatever a callee's post-condition says
+	fc.permFact(closedText(vt, row, v, a))
+}
+
+// closedText: only objects that existed when this heap version was created are covered: a later-allocated row
+// read from an unchanged heap version holds whatever a callee's post-condition says
+func closedText(vt types.Type, row, v, a string) string {
 	rowOld := sApp("isold", row, a)
 	switch vt.Underlying().(type) {
 	case *types.Pointer, *types.Map, *types.Chan:
-		fc.permFact(sImp(rowOld, sOr(sEq(v, "0"), sApp("isold", v, a))))
+		return sImp(rowOld, sOr(sEq(v, "0"), sApp("isold", v, a)))
 	case *types.Slice:
-		fc.permFact(sAnd(sImp(rowOld, sApp("<=", sApp("sl_arr", v), a)), sApp("slwf", v)))
+		return sAnd(sImp(rowOld, sApp("<=", sApp("sl_arr", v), a)), sApp("slwf", v))
 	case *types.Interface:
-		fc.permFact(sImp(rowOld, sApp("<=", sApp("ipay", v), a)))
+		return sImp(rowOld, sApp("<=", sApp("ipay", v), a))
+	}
+	return "true"
+}
+
+// frameForReads: ground frame instances (the read of a havocked heap version equals the read of the version
+// before the havoc unless the row is fresh or excepted) for one-level heap reads that occur in a hypothesis
+// instance created while a query is built. Read-only on fc (queries are built concurrently).
+func (fc *FnCtx) frameForReads(text string, seen map[string]bool, out *[]string) {
+	for _, pat := range []string{"(select BV!", "(select |F:", "(select |B:"} {
+		from := 0
+		for len(*out) < 3000 {
+			k := strings.Index(text[from:], pat)
+			if k < 0 {
+				break
+			}
+			k += from
+			from = k + 1
+			d, j := 0, k
+			for ; j < len(text); j++ {
+				if text[j] == '(' {
+					d++
+				} else if text[j] == ')' {
+					d--
+					if d == 0 {
+						break
+					}
+				}
+			}
+			if j >= len(text) {
+				break
+			}
+			sub := text[k : j+1]
+			if len(sub) > 1500 || reBoundVar.MatchString(sub) {
+				continue
+			}
+			a := splitSexpr(sub)
+			if len(a) != 3 {
+				continue
+			}
+			fc.frameChain(a[1], a[2], seen, out, 0)
+		}
+	}
+}
+
+func (fc *FnCtx) frameChain(term, row string, seen map[string]bool, out *[]string, depth int) {
+	key := "fr:" + term + "@" + row
+	if seen[key] || depth > 60 {
+		return
+	}
+	seen[key] = true
+	if info, ok := fc.frames[term]; ok {
+		conds := []string{sApp("isold", row, info.alloc)}
+		for _, e := range info.exc {
+			conds = append(conds, sNot(sEq(row, e)))
+		}
+		*out = append(*out, "(assert "+sImp(sAnd(conds...), sEq(sSel(term, row), sSel(info.pre, row)))+")")
+		fc.frameChain(info.pre, row, seen, out, depth+1)
+	}
+	for _, p := range fc.parents[term] {
+		fc.frameChain(p, row, seen, out, depth+1)
+	}
+}
+
+// closedForReads: ground closedness instances for the heap reads that occur in a hypothesis instance created
+// while a query is built (those terms never went through rd/rd2)
+func (fc *FnCtx) closedForReads(text string, seen map[string]bool, out *[]string) {
+	for _, pat := range []string{"(select (select |E:", "(select (select |MV:", "(select |F:", "(select |B:"} {
+		from := 0
+		for len(*out) < 1500 {
+			k := strings.Index(text[from:], pat)
+			if k < 0 {
+				break
+			}
+			k += from
+			from = k + 1
+			d, j := 0, k
+			for ; j < len(text); j++ {
+				if text[j] == '(' {
+					d++
+				} else if text[j] == ')' {
+					d--
+					if d == 0 {
+						break
+					}
+				}
+			}
+			if j >= len(text) {
+				break
+			}
+			sub := text[k : j+1]
+			if seen[sub] || len(sub) > 1500 || reBoundVar.MatchString(sub) {
+				continue
+			}
+			seen[sub] = true
+			a := splitSexpr(sub)
+			if len(a) != 3 {
+				continue
+			}
+			heapTerm, row := a[1], a[2]
+			if strings.HasPrefix(heapTerm, "(select ") {
+				in := splitSexpr(heapTerm)
+				if len(in) != 3 {
+					continue
+				}
+				heapTerm, row = in[1], in[2]
+			}
+			name := fc.heapNameOf(heapTerm)
+			vt := heapValType[name]
+			if name == "" || vt == nil {
+				continue
+			}
+			al, ok := fc.heapAlloc[heapTerm]
+			if !ok {
+				if strings.HasSuffix(heapTerm, "!0") || strings.HasSuffix(heapTerm, "!0|") {
+					al = sym(hAlloc + "!0")
+				} else {
+					continue
+				}
+			}
+			if t := closedText(vt, row, sub, al); t != "true" {
+				*out = append(*out, "(assert "+t+")")
+			}
+		}
 	}
 }
 
